@@ -36,21 +36,21 @@ def run(ctx):
     jobs = []
     # (a) exhaustive: every schedule of {2 subscribers set up one after the other} x {one client-side terminator} x {one source-side
     #     terminator} without events (complete/error/done vs unsubscribe/remove client/shutdown), incl. one mutual-exclusion probe
-    jobs.append(("term", sc.gen_cfg("term", MaxEvents=0, MaxTerm=1, MaxSrcTerm=1, MaxProbes=1, CfgOK="CfgRace"), dict(cap=300 if quick else None, timeout=1200)))
+    jobs.append(("term", sc.gen_cfg("term", MaxEvents=0, MaxTerm=1, MaxSrcTerm=1, MaxProbes=1, CfgOK="CfgRace"), dict(cap=250 if quick else None, timeout=1200)))
     # (a') exhaustive: pure delivery, two events through one trigger with every filter combination; each schedule several times
     #      (the order in which the code walks its subscriber map is not ours to choose)
     jobs.append(("deliver", sc.gen_cfg("deliver", MaxEvents=2, MaxTerm=0, MaxSrcTerm=0, CfgOK="CfgSame"), dict(timeout=600)))
     # (a'') exhaustive: one event whose resolution performs a nested fetch per subscriber (the update goroutine sits in the fetch,
     #       outside every lock) racing with one client-side terminator
-    jobs.append(("fetch", sc.gen_cfg("fetch", MaxEvents=1, MaxTerm=1, MaxSrcTerm=0, CfgOK="CfgFetch", Features="FeatFetch"), dict(cap=250 if quick else None, timeout=1200)))
+    jobs.append(("fetch", sc.gen_cfg("fetch", MaxEvents=1, MaxTerm=1, MaxSrcTerm=0, CfgOK="CfgFetch", Features="FeatFetch"), dict(cap=200 if quick else None, timeout=1200)))
     # (a3) exhaustive: one trigger, two subscribers, one event (Update or UpdateSubscription); subscriber 2's filter fails or its
     #      response cannot be rendered: the error goes to exactly that subscriber, racing with one client-side terminator
-    jobs.append(("err", sc.gen_cfg("err", MaxEvents=1, MaxTerm=1, MaxSrcTerm=0, CfgOK="CfgErr", Features="FeatErr", AllowCloseSub="TRUE"), dict(cap=250 if quick else None, timeout=1200)))
+    jobs.append(("err", sc.gen_cfg("err", MaxEvents=1, MaxTerm=1, MaxSrcTerm=0, CfgOK="CfgErr", Features="FeatErr", AllowCloseSub="TRUE", MaxProbes=1), dict(cap=300 if quick else None, timeout=1200)))
     if not quick:
         # (b) exhaustive: the same with one event in flight (update vs removal / completion / flush failure)
         jobs.append(("ev1", sc.gen_cfg("ev1", MaxEvents=1, MaxTerm=1, MaxSrcTerm=1, CfgOK="CfgSame"), dict(cap=5000, timeout=2400)))
     # (c) sampled: 2 events, heartbeat, second source goroutine, flush / heartbeat failures, probes, every configuration
-    jobs.append(("sim", sc.gen_cfg("sim", MaxEvents=2, MaxTerm=1, MaxSrcTerm=1, MaxHB=1, UseD="TRUE", MaxProbes=1, CfgOK="CfgNoHooks", AllowCloseSub="TRUE", Features="FeatAll"), dict(simulate=2600 if quick else 7000, depth=400, timeout=2400, cap=600 if quick else None)))
+    jobs.append(("sim", sc.gen_cfg("sim", MaxEvents=2, MaxTerm=1, MaxSrcTerm=1, MaxHB=1, UseD="TRUE", MaxProbes=1, CfgOK="CfgNoHooks", AllowCloseSub="TRUE", Features="FeatAll"), dict(simulate=2000 if quick else 7000, depth=400, timeout=2400, cap=500 if quick else None)))
     # (d) sampled: the same with 2 client-side terminators (e.g. flush failure + unsubscribe, remove client + shutdown)
     jobs.append(("sim2", sc.gen_cfg("sim2", MaxEvents=2, MaxTerm=2, MaxSrcTerm=1, MaxHB=1, UseD="FALSE", MaxProbes=1, CfgOK="CfgNoFilt"), dict(simulate=800 if quick else 3000, depth=400, timeout=2400, cap=250 if quick else None)))
     # (d2) sampled: subscriber 1 through the synchronous ResolveGraphQLSubscription (select on its request context / the resolver context /
@@ -64,8 +64,10 @@ def run(ctx):
         s, n = gen[tag]
         if tag == "deliver":
             rep = []
-            for k, fk in enumerate(sc.FKS):  # once per way of writing the filter value (static / variable: number, array, true, false, string)
+            for k, fk in enumerate(sc.FKS):  # once per way of writing the filter (static / variable: number, array, true, false, string; IN / NOT{IN} with 2 templates)
                 for x in s:
+                    if k > 0 and not any(c["filt"] == "odd" for c in x["subs"]):
+                        continue    # nothing to vary without a filter
                     y = dict(x)
                     y["id"] = "%s-r%d" % (x["id"], k)
                     y["kv"] = sc.KVS[k % len(sc.KVS)]
